@@ -759,5 +759,31 @@ func registerFEPrelude() {
 		x.prngKeys[p.Obj] = a[1].(string)
 		return nil
 	}
+	// vSharesAtomOfClass(a, b []uint64, q, class): some atom of the class occurs both in a and in b
+	P["vSharesAtomOfClass"] = func(x *Exec, fn *ssa.Function, a []Value) Value {
+		q := x.term(a[2]).C
+		cls := x.constInt(a[3], "class")
+		st := x.feS()
+		in := map[int]bool{}
+		for _, f := range x.sliceFEs(a[0], q) {
+			for k := range f.P.terms {
+				for _, id := range monoIDs(monoStr(k)) {
+					if st.atoms[id].class == cls {
+						in[id] = true
+					}
+				}
+			}
+		}
+		for _, f := range x.sliceFEs(a[1], q) {
+			for k := range f.P.terms {
+				for _, id := range monoIDs(monoStr(k)) {
+					if in[id] {
+						return x.ts.True
+					}
+				}
+			}
+		}
+		return x.ts.False
+	}
 	P["vIsAlgebraic"] = func(x *Exec, fn *ssa.Function, a []Value) Value { return x.ts.True }
 }
